@@ -116,9 +116,12 @@ package bitcoin_reader
 //@   ensures [C20.clear] len(repo.list) == 0 && repo.lookup != nil && len(repo.lookup) == 0 && peersInv(repo)
 //@   modifies repo.list, repo.lookup, repo.lastSaved
 
+// readPeer gives up only when the stream ends or the declared address size is negative: an empty address (size 0) or
+// any score/time value is read back (Load stops at the first error, so a rejected record would drop the rest).
 //@ func readPeer
+//@   ensures [C20.reject-only-bad-size] result1 != nil && !failed(r) ==> ghostv("lastint", r) < 0
 //@   safety [C20,C15]
-//@   modifies reads(r)
+//@   modifies reads(r), ghost("lastint")
 
 //@ func (*StoragePeerRepository).Load
 //@   requires repo != nil
@@ -126,7 +129,7 @@ package bitcoin_reader
 //@   safety [C20,C15]
 //@   modifies all
 //@   loop 1
-//@     modifies reads(buffer), repo.list, elems(repo.list), mapof(repo.lookup)
+//@     modifies reads(buffer), repo.list, elems(repo.list), mapof(repo.lookup), ghost("lastint")
 //@     invariant peersInv(repo) && fresh(repo.lookup) && sameregion(repo.list)
 
 // ---------------------------------------------------------------------------------------------------
@@ -216,6 +219,7 @@ package bitcoin_reader
 //@   modifies typesof(headers), allmaps(map[bitcoin.Hash32]int), allchans(*wire.BlockHeader), allbig
 //@ iface github.com/tokenized/bitcoin_reader.HeaderRepository.HashHeight
 //@   params repo, hash
+//@   ensures result != -1 ==> result == heightOf(hash)
 //@   modifies nothing
 //@ iface github.com/tokenized/bitcoin_reader.PeerRepository.Add
 //@   params repo, ctx, address
@@ -645,13 +649,14 @@ package bitcoin_reader
 // as the repository reports it). processedBlock: whether the block-tx store has an entry for h; within one round the
 // store is treated as not changing under the reader (assumption).
 //@ ufunc prevOf(h bitcoin.Hash32) bitcoin.Hash32
+//@ ufunc heightOf(h bitcoin.Hash32) int
 //@ ufunc processedBlock(h bitcoin.Hash32) bool
 //@ iface github.com/tokenized/bitcoin_reader.HeaderRepository.LastHash
 //@   params repo
 //@   modifies nothing
 //@ iface github.com/tokenized/bitcoin_reader.HeaderRepository.PreviousHash
 //@   params repo, hash
-//@   ensures result0 != nil ==> *result0 == prevOf(hash)
+//@   ensures result0 != nil ==> *result0 == prevOf(hash) && heightOf(prevOf(hash)) == heightOf(hash) - 1
 //@   modifies nothing
 //@ iface github.com/tokenized/bitcoin_reader.HeaderRepository.Hash
 //@   params repo, ctx, height
@@ -678,12 +683,14 @@ package bitcoin_reader
 //@   ensures [C05.not-below-start] sent(q) > old(sent(q)) ==> chanlog(q, old(sent(q))).height >= m.config.StartBlockHeight
 //@   ensures [C05.ascending-contiguous] forallv(n, int, old(sent(q)) < n && n < sent(q) ==> chanlog(q, n).height == chanlog(q, n-1).height + 1 && prevOf(chanlog(q, n).hash) == chanlog(q, n-1).hash)
 //@   ensures [C05.never-processed] forallv(n, int, old(sent(q)) <= n && n < sent(q) ==> !processedBlock(chanlog(q, n).hash))
+//@   ensures [C05.heights-match-hashes] forallv(n, int, old(sent(q)) <= n && n < sent(q) ==> chanlog(q, n).height == heightOf(chanlog(q, n).hash))
 //@   modifies m.blockManagerLock, allof(BlockManager.requestLock), allchans(*downloadRequest), allchans(interface{}), allchans(error)
 //@   loop 1
 //@     invariant len(hashes) >= 1 && hashes[0] == hash && height == lastHeight - (len(hashes) - 1) && sent(q) == old(sent(q))
 //@     invariant forall(k, 1, len(hashes), prevOf(hashes[k]) == hashes[k-1])
 //@     invariant forall(k, 0, len(hashes), !processedBlock(hashes[k]))
 //@     invariant height >= m.config.StartBlockHeight
+//@     invariant forall(k, 0, len(hashes), heightOf(hashes[k]) == height + (k))
 //@   loop 2
 //@     modifies allof(BlockManager.requestLock), allchans(*downloadRequest), allchans(interface{}), allchans(error)
 //@     invariant (-1 <= rangeindex && rangeindex < len(hashes)) || (len(hashes) == 0 && rangeindex == -1)
@@ -694,6 +701,8 @@ package bitcoin_reader
 //@     invariant sent(q) > old(sent(q)) ==> chanlog(q, old(sent(q))).height >= m.config.StartBlockHeight
 //@     invariant forallv(n, int, old(sent(q)) < n && n < sent(q) ==> chanlog(q, n).height == chanlog(q, n-1).height + 1 && prevOf(chanlog(q, n).hash) == chanlog(q, n-1).hash)
 //@     invariant forallv(n, int, old(sent(q)) <= n && n < sent(q) ==> !processedBlock(chanlog(q, n).hash))
+//@     invariant forall(k, 0, len(hashes), heightOf(hashes[k]) == startHeight + (k))
+//@     invariant forallv(n, int, old(sent(q)) <= n && n < sent(q) ==> chanlog(q, n).height == heightOf(chanlog(q, n).hash))
 //@   loop 3
 //@     modifies allchans(interface{}), allchans(error)
 //@     invariant sent(q) == atentry(sent(q)) && !closed(q) && complete == atentry(complete) && abort == atentry(abort)
